@@ -924,7 +924,7 @@ fn run_all(o: &Opts) -> i32 {
     // A schedule that does not terminate on the engine (the generator cannot rule this out
     // completely: a subset of the rules may diverge where the full set saturates) is detected by a
     // watchdog; its program and the rest of its chunk are abandoned and counted, not reported as a
-    // violation; more than 2% abandoned programs is a harness failure.
+    // violation; more than 10% abandoned programs is a harness failure.
     use std::sync::{atomic::{AtomicU64, Ordering}, Arc, Mutex};
     let progress = Arc::new(AtomicU64::new(0));
     let results: Arc<Mutex<Vec<(usize, Acc, Vec<String>)>>> = Arc::new(Mutex::new(vec![]));
@@ -952,17 +952,19 @@ fn run_all(o: &Opts) -> i32 {
         });
     }
     drop(tx);
+    // generous, load-tolerant stall limit: a busy machine must not turn slow programs into an alarm
+    let stall_secs: u64 = if o.thorough { 900 } else { 300 };
     let mut finished = 0;
     let mut last = u64::MAX;
     let mut abandoned = 0usize;
     while finished < nthreads {
-        match rx.recv_timeout(std::time::Duration::from_secs(90)) {
+        match rx.recv_timeout(std::time::Duration::from_secs(stall_secs)) {
             Ok(()) => finished += 1,
             Err(std::sync::mpsc::RecvTimeoutError::Timeout) => {
                 let cur = progress.load(Ordering::SeqCst);
                 if cur == last {
                     abandoned = ntodo - cur as usize;
-                    eprintln!("h_sched: no program finished for 90 s; abandoning {abandoned} programs (a schedule does not terminate)");
+                    eprintln!("h_sched: no program finished for {stall_secs} s; abandoning {abandoned} programs (a schedule does not terminate)");
                     break;
                 }
                 last = cur;
@@ -1012,7 +1014,7 @@ fn run_all(o: &Opts) -> i32 {
         acc.until_stopped,
     );
     std::fs::write(o.out.join("impl_report.json"), report).unwrap();
-    if abandoned * 50 > ntodo {
+    if abandoned * 10 > ntodo {
         eprintln!("h_sched: {abandoned} of {ntodo} programs abandoned");
         std::process::exit(3);
     }
